@@ -59,14 +59,17 @@ def run(tier):
                 hist = [ip[i]["hist"] for i in range(items)]
                 ref = None
                 pols = list(POLICIES)
-                if sb == 2500:
+                # 1-byte reads: always for the 2500-byte samples; for the 125000-byte samples (2.5 and 6.25 million Read calls
+                # per workflow) once per function, sequential and with all workers
+                if sb == 2500 or (rep == 0 and ts is None):
                     pols.append(("one", 0))
                 for pol, size in pols:
                     if sb > 2500 and pol == "fixed" and size == 61 and not thorough and rep > 0:
                         continue
                     jid += 1
                     j = wf.mkjob(jid, fn, ip, plan_seed=pseed, policy=pol, size=size, rseed=rng.randrange(1 << 30),
-                                 round_delay_us=rng.choice([0, 100]) if fast else 0, tag="W=%d %s/%d" % (w, pol, size), timeout_ms=8000)
+                                 round_delay_us=rng.choice([0, 100]) if fast else 0, tag="W=%d %s/%d" % (w, pol, size),
+                                 timeout_ms=60000 if (pol == "one" and sb > 2500) else 8000)
                     if ref is None:
                         ref = j
                     else:
@@ -91,6 +94,8 @@ def run(tier):
 
     # ---- SingleDetect: real poker decision, every policy vs the full read of the same bytes
     lens = list(range(16, 4097)) if thorough else sorted(set(list(range(16, 60)) + [319 // 8, 40, 41, 1279, 1280, 1281, 4095, 4096] + [rng.randrange(16, 4097) for _ in range(120)]))
+    # requests above 64 KiB (a size where an implementation may switch to block-wise reading)
+    lens += [65536, 65537, 100000, 131073] + ([125000, 300000, 1048577] if thorough else [])
     sj, refs = [], {}
     for nb in lens:
         sseed = rng.randrange(1 << 40)
@@ -100,7 +105,7 @@ def run(tier):
         jid += 1
         r0 = wf.mk_single(jid, nb, stream=st, tag="single nb=%d full" % nb)
         sj.append(r0)
-        for pol, size in [("one", 0), ("fixed", 7), ("random", 0), ("allbutone", 0), ("straddle", 16)]:
+        for pol, size in [("one", 0), ("fixed", 7 if nb <= 4096 else 997), ("random", 0), ("allbutone", 0), ("straddle", 16 if nb <= 4096 else 4096)]:
             jid += 1
             j = wf.mk_single(jid, nb, stream=st, policy=pol, size=size, rseed=jid, tag="single nb=%d %s" % (nb, pol))
             sj.append(j)
